@@ -7,7 +7,7 @@ from typing import Dict, List, Optional, Tuple
 
 from . import terms as tm
 from .loader import ClassInfo, FuncInfo
-from .terms import FALSE, NONE, T, TRUE, const, mk
+from .terms import FALSE, NONE, T, TRUE, const, contains, mk
 from .vfg import ARRAY_METHODS, MAX_DEPTH, MAX_UNROLL, Frame, Scope
 
 JNP = "jax.numpy."
@@ -294,7 +294,10 @@ class CallMixin:
         mkey = (id(f.node), self_term.id if self_term is not None else 0, id(closure) if closure else 0,
                 tuple(a.id for a in args), tuple((k, v.id) for k, v in sorted(kw.items())), ov)
         if closure is None and mkey in self._memo:
-            return self._memo[mkey]
+            result, suffix = self._memo[mkey]
+            if len(self.path) + len(suffix) <= 48:
+                self.path.extend(suffix)
+            return result
         if fr is not None:
             self.call_edges.add((fr.func.qual, f.qual))
         self.visited_funcs.setdefault(f.qual, f)
@@ -303,6 +306,10 @@ class CallMixin:
         frame = Frame(f, f.module, scope, st, cls if cls is not None else f.cls, depth)
         fr_def = Frame(f, f.module, Scope(closure), st, cls, depth)
         self.bind(f, self_term, args, kw, scope, fr_def)
+        site = None
+        if fr is not None and not isinstance(f.node, ast.Lambda):
+            site = [f, dict(scope.vars), fr.func, node, None]
+            self.callsites.append(site)
         for pn, pv in scope.vars.items():
             if pn in AXIS_PARAM_NAMES:
                 self.bindings.append((f, pn, pv, fr.func if fr is not None else None, node))
@@ -316,21 +323,34 @@ class CallMixin:
                     if c is not None and self.tree.is_record(c):
                         self.term_type[v.id] = c
         self._stack.append(skey)
+        path_base = len(self.path)
         try:
             if isinstance(f.node, ast.Lambda):
                 result = self.eval(f.node.body, frame)
             else:
-                self.exec_block(f.node.body, frame)
+                ended = self.exec_block(f.node.body, frame)
+                if not ended:
+                    frame.return_paths.append(tuple(self.path))   # falls off the end
                 if not frame.returns:
-                    result = NONE
+                    result = tm.NORETURN if ended else NONE
                 else:
                     result = frame.returns[0]
                     for r in frame.returns[1:]:
                         result = self.zip_struct(lambda x, y: x if x is y else self.mk_phi([x, y]), result, r)
         finally:
             self._stack.pop()
+            del self.path[path_base:]
+        # what is known after the call returned normally: the path condition of its only normal exit
+        suffix: tuple = ()
+        if not isinstance(f.node, ast.Lambda) and len(frame.return_paths) == 1:
+            suffix = tuple(frame.return_paths[0][path_base:])
+            if len(self.path) + len(suffix) > 48:
+                suffix = ()
+            self.path.extend(suffix)
+        if site is not None:
+            site[4] = result
         if closure is None:
-            self._memo[mkey] = result
+            self._memo[mkey] = (result, suffix)
         return result
 
     def instantiate(self, ci: ClassInfo, args: List[T], kw: Dict[str, T], fr, node) -> T:
@@ -434,7 +454,13 @@ class CallMixin:
         items = self.static_items(branches)
         if items is None:
             return None
-        return self.zip_choice("switch", idx, [self.callback(b, ops, {}, fr, node) for b in items])
+        outs = [self.callback(b, ops, {}, fr, node) for b in items]
+        if len(outs) == 2:
+            from .normal import bool_index
+            b = bool_index(idx)
+            if b is not None:   # switch(int(b), [f0, f1]) == cond(b, f1, f0)
+                return self.zip_choice("cond", b, [outs[1], outs[0]])
+        return self.zip_choice("switch", idx, outs)
 
     def x_jax_lax_select(self, args, kw, fr, node):
         if len(args) == 3:
@@ -559,6 +585,15 @@ class CallMixin:
         f, trees = args[0], list(args[1:])
         is_leaf = kw.get("is_leaf")
         t0 = trees[0]
+        # leaf-wise selection between whole trees: tree_map(lambda a, b: where(p, a, b), x, y) with p independent of
+        # the leaves is the selection where(p, x, y) of the trees themselves
+        if len(trees) >= 2 and is_leaf is None:
+            probe = [mk("leaf", t) for t in trees]
+            if len({q.id for q in probe}) == len(probe):
+                out = self.callback(f, probe, {}, fr, node)
+                if out is not None and out.kind == "choice" and all(any(a is q for q in probe) for a in out.args[2]) \
+                        and not any(contains(out.args[1], q) for q in probe):
+                    return self.mk_choice(out.args[0], out.args[1], [trees[[q.id for q in probe].index(a.id)] for a in out.args[2]])
         # static containers: map over the items (only when no is_leaf or items are leaves)
         if t0.kind in ("list", "tuple", "dict") and all(t.kind == t0.kind for t in trees):
             seqs = [t.args[1] if t.kind == "dict" else t.args[0] for t in trees]
@@ -711,6 +746,8 @@ class CallMixin:
         return None
 
     def x_builtins_bool(self, args, kw, fr, node):
+        if args and args[0].kind == "const" and isinstance(args[0].args[0], (int, float, bool, str, type(None))):
+            return const(bool(args[0].args[0]))
         if args:
             self.record("py_branch", args[0], "bool()", None, fr, node)
         return None
